@@ -142,7 +142,7 @@ Proof.
         destruct (c_auth c); try reflexivity. exfalso. now apply Hpub. }
       rewrite Hc1. cbn [andb]. unfold carries.
       cbn [t_sub t_at_sub t_azp t_aud t_scope t_nonce t_jwt].
-      rewrite openid_guard, !String.eqb_refl, aud_with_in, strs_eqb_refl. cbn [andb].
+      rewrite !String.eqb_refl, aud_with_in, strs_eqb_refl. cbn [andb].
       destruct (c_jwt c); [|reflexivity]. rewrite Hcid. apply String.eqb_refl. }
     split; [reflexivity|].
     cbn [ledger_step]. unfold add_rt. cbn [t_rt].
@@ -196,7 +196,7 @@ Proof.
       { cbn [c07_ok]. rewrite Hgt, Hnrot, Hkeep, Hfl, R1, Hp, R5, Hs2. cbn [orb negb andb t_scope t_jwt t_rt].
         unfold client_refresh. rewrite Hfc, Hr, Hnref, Hsceq, Hj, Htid, Nat.eqb_refl.
         cbn [negb andb t_sub t_at_sub t_aud t_azp t_auth].
-        rewrite R2, R3, R4, openid_guard, !String.eqb_refl, strs_eqb_refl, Nat.eqb_refl. reflexivity. }
+        rewrite R2, R3, R4, !String.eqb_refl, strs_eqb_refl, Nat.eqb_refl. reflexivity. }
       cbn [ledger_step]. unfold add_rt. cbn [t_rt]. rewrite Htid, Nat.eqb_refl.
       constructor; cbn [g_reqs g_codes g_used g_rts g_rot g_norefresh reqs codes rtoks next ncode norefresh]; try assumption.
       + intros m t1 Hf. unfold find_rt in Hf. cbn [rtoks find r_id] in Hf.
@@ -217,7 +217,7 @@ Proof.
       unfold client_refresh. rewrite Hfc, Hr, Hnref, Hsceq. cbn [andb].
       rewrite Hj, Hfresh. cbn [andb].
       rewrite Hne. cbn [negb andb t_sub t_at_sub t_aud t_azp t_auth].
-      rewrite R2, R3, R4, openid_guard, !String.eqb_refl, strs_eqb_refl, Nat.eqb_refl. reflexivity. }
+      rewrite R2, R3, R4, !String.eqb_refl, strs_eqb_refl, Nat.eqb_refl. reflexivity. }
     cbn [ledger_step]. unfold add_rt. cbn [t_rt]. rewrite Hne.
     constructor; cbn [g_reqs g_codes g_used g_rts g_rot g_norefresh reqs codes rtoks next ncode norefresh]; try assumption.
     + intros m t1 Hf. unfold find_rt in Hf. cbn [rtoks find r_id] in Hf.
